@@ -4,7 +4,7 @@
 # usage: tools/final_matrix.sh [id ...]     (default: all of /verif/seeded/*)
 cd /verif
 declare -A EXTRA=( [C01a]=C07 [C01c]=C06 [C02a]=C08 [C02b]=C08 [C02c]=C08 [C03a]=C18 [C03b]=C16 [C04a]=C01 [C04b]=C05
-                   [C06c]=C12 [C07a]=C01 [C08a]=C02 [C08b]=C02 [C10a]=C17 [C11c]=C18 [C12c]=C06 [C17a]="C08 C02" [C18c]=C16 [C15d]=C16 [C15e]=C08 [C02e]=C17 [C05f]=C19 [C06f]=C11 [C01f]="C02 C08" [C12g]="C15 C16" [C18g]="C16 C03" [C13g]=C17 [C03g]=C12 [C06g]="C01 C15" [C14g]=C03 [C16g]=C14 )
+                   [C06c]=C12 [C07a]=C01 [C08a]=C02 [C08b]=C02 [C10a]=C17 [C11c]=C18 [C12c]=C06 [C17a]="C08 C02" [C18c]=C16 [C15d]=C16 [C15e]=C08 [C02e]=C17 [C05f]=C19 [C06f]=C11 [C01f]="C02 C08" [C12g]="C15 C16" [C18g]="C16 C03" [C13g]=C17 [C03g]=C12 [C06g]="C01 C15" [C14g]=C03 [C16g]=C14 [C09g]="C18 C03" )
 IDS=("$@"); [ ${#IDS[@]} -eq 0 ] && IDS=($(ls seeded | grep '^C[0-9][0-9][a-z]$'))
 LOG=/tmp/final_matrix.$$.log; : > "$LOG"
 # run from a frozen copy of the machinery, so that /verif may be edited while the matrix runs
